@@ -18,6 +18,7 @@ CONSTANTS
   BURNS = {1, 3}
   DELAMTS = {1, 2, 3}
   MAXDEL = 4
+  MAXJAIL = 1
   MAXEPOCHS = 5
   MAXOPS = 16
   GENSUPPLY = 1000
